@@ -20,20 +20,30 @@ structure StateOk (s : State) : Prop where
 /-- push and pull preserve the state shape -/
 theorem push_state_ok (P : Prims) (hP : PrimsOk P) (s : State) (hs : StateOk s) (m ad : Bytes) (tag : UInt8) :
     StateOk (push P s m ad tag).1 := by
-  sorry
+  have h := SSP.push_shape P hP.ks_len hP.mac_len s hs.k_len hs.nonce_len m ad tag
+  exact ⟨h.1, h.2⟩
 
 /-- a pushed chunk is `tag-byte ‖ ciphertext ‖ mac`, 17 bytes longer than the message -/
 theorem push_chunk_layout (P : Prims) (hP : PrimsOk P) (s : State) (m ad : Bytes) (tag : UInt8) :
     (push P s m ad tag).2.length = m.length + 17 ∧
     ((push P s m ad tag).2.drop 1).take m.length = xorBytes m (P.ks s.k s.nonce 2 m.length) := by
-  sorry
+  have hk1 : 1 ≤ (P.ks s.k s.nonce 1 64).length := by rw [hP.ks_len]; omega
+  have hb := block_take1_length tag (zeros 63) _ hk1
+  have hc : (xorBytes m (P.ks s.k s.nonce 2 m.length)).length = m.length := by
+    simp [xorBytes_length, hP.ks_len]
+  have h := split3 _ _ (P.mac ((P.ks s.k s.nonce 0 64).take 32)
+    (macInput ad (xorBytes (tag :: zeros 63) (P.ks s.k s.nonce 1 64))
+      (xorBytes m (P.ks s.k s.nonce 2 m.length)))) m.length hb hc
+  refine ⟨?_, h.2.1⟩
+  simp only [push, List.length_append, hb, hc, hP.mac_len]; omega
 
 /-- Synchronisation, one step: pulling what was pushed from the same state returns the message, the
     tag, and exactly the sender's next state — for every state (any counter value, including
     ff ff ff ff), message, associated data and tag (REKEY-tagged chunks included). -/
 theorem pull_push (P : Prims) (hP : PrimsOk P) (s : State) (hs : StateOk s) (m ad : Bytes) (tag : UInt8) :
     pull P s (push P s m ad tag).2 ad = .ok (push P s m ad tag).1 m tag := by
-  sorry
+  have _ := hs  -- the shape hypothesis is not needed for this direction
+  exact SSP.pull_push P hP.ks_len hP.mac_len s m ad tag
 
 /-- operations of a sender -/
 inductive Op where
@@ -70,7 +80,8 @@ def pushed : List Op → List (Bytes × UInt8)
 
 /-- rekey preserves the state shape -/
 theorem rekey_state_ok (P : Prims) (hP : PrimsOk P) (s : State) (hs : StateOk s) : StateOk (SS.rekey P s) := by
-  sorry
+  have h := SSP.rekey_shape P hP.ks_len s hs.k_len hs.nonce_len
+  exact ⟨h.1, h.2⟩
 
 /-- Synchronisation over every history: for any sequence of pushes (any tags, lengths, associated
     data) and explicit rekeys, a receiver starting from the same state recovers exactly the pushed
@@ -78,12 +89,20 @@ theorem rekey_state_ok (P : Prims) (hP : PrimsOk P) (s : State) (hs : StateOk s)
     on REKEY-tagged chunks included, since they are part of `push`/`pull`). -/
 theorem sync_history (P : Prims) (hP : PrimsOk P) (s : State) (hs : StateOk s) (ops : List Op) :
     receiver P s (sender P s ops).2 = some ((sender P s ops).1, pushed ops) := by
-  sorry
+  induction ops generalizing s with
+  | nil => rfl
+  | cons op ops ih =>
+    cases op with
+    | push m ad tag =>
+      simp only [sender, receiver, pushed, pull_push P hP s hs m ad tag,
+        ih _ (push_state_ok P hP s hs m ad tag), Option.map_some]
+    | rekey =>
+      simp only [sender, receiver, pushed, ih _ (rekey_state_ok P hP s hs)]
 
 /-- inputs shorter than the 17-byte overhead are always rejected -/
 theorem short_rejected (P : Prims) (s : State) (inp ad : Bytes) (h : inp.length < 17) :
     pull P s inp ad = .fail := by
-  sorry
+  simp [pull, h]
 
 /-- acceptance implies that the stored MAC is the Poly1305 tag, under the key derived from the
     *current* state, of the chunk's encoding — so a dropped / replayed / reordered / modified chunk or
@@ -95,15 +114,15 @@ theorem pull_accept_mac (P : Prims) (hP : PrimsOk P) (s s' : State) (inp ad m : 
     inp.drop (inp.length - 16) =
       P.mac ((P.ks s.k s.nonce 0 64).take 32)
         (macInput ad (inp.take 1 ++ (xorBytes (inp.take 1 ++ zeros 63) (P.ks s.k s.nonce 1 64)).drop 1)
-          ((inp.drop 1).take (inp.length - 17))) := by
-  sorry
+          ((inp.drop 1).take (inp.length - 17))) :=
+  SSP.pull_accept_mac P hP.mac_len s s' inp ad m tag h
 
 /-- the MAC input encodes (ad, block, ciphertext) injectively (despite the documented mis-padding),
     so an accepted modification is a genuine MAC forgery, never an encoding ambiguity -/
 theorem macInput_injective (ad ad' b b' c c' : Bytes) (hb : b.length = 64) (hb' : b'.length = 64)
     (hl : ad.length < 2 ^ 64 ∧ ad'.length < 2 ^ 64 ∧ c.length < 2 ^ 64 - 64 ∧ c'.length < 2 ^ 64 - 64)
-    (h : macInput ad b c = macInput ad' b' c') : ad = ad' ∧ b = b' ∧ c = c' := by
-  sorry
+    (h : macInput ad b c = macInput ad' b' c') : ad = ad' ∧ b = b' ∧ c = c' :=
+  SSP.macInput_injective ad ad' b b' c c' hb hb' hl h
 
 /-- the state after a chunk: inonce is chained with the chunk's MAC, the counter is incremented, and a
     rekey happens exactly on a REKEY-tagged chunk or when the counter wraps to zero -/
@@ -111,13 +130,59 @@ theorem advance_eq (P : Prims) (s : State) (hs : StateOk s) (mac : Bytes) (hm : 
     advance P s mac tag =
       let s1 : State := ⟨s.k, toLE 4 ((le (counter s) + 1) % 2 ^ 32) ++ xorBytes (inonce s) (mac.take 8)⟩
       if (tag &&& 0x02) ≠ 0 ∨ (le (counter s) + 1) % 2 ^ 32 = 0 then SS.rekey P s1 else s1 := by
-  sorry
+  have _ := hm  -- only `hs` is needed
+  exact SSP.advance_eq P s hs.nonce_len mac tag
 
 /-- in particular the 32-bit chunk counter never silently repeats: from ff ff ff ff the next state is a rekeyed one -/
 theorem counter_wrap_rekeys (P : Prims) (hP : PrimsOk P) (s : State) (hs : StateOk s) (mac : Bytes) (hm : mac.length = 16)
     (tag : UInt8) (hc : counter s = [0xff, 0xff, 0xff, 0xff]) :
     advance P s mac tag = SS.rekey P ⟨s.k, zeros 4 ++ xorBytes (inonce s) (mac.take 8)⟩ ∧
     counter (advance P s mac tag) = [1, 0, 0, 0] := by
-  sorry
+  have _ := hP; have _ := hm  -- only `hs` and `hc` are needed
+  have h := SSP.counter_wrap P s hs.nonce_len mac tag hc
+  exact ⟨h, by rw [h]; rfl⟩
+
+/-! ### non-vacuity: toy primitives meeting `PrimsOk`, a concrete `StateOk` state, and evaluated
+    push / pull / history runs -/
+
+/-- toy primitives: the keystream depends on key, nonce and block counter; the MAC on key, length and contents -/
+def toyPrims : Prims :=
+  { ks := fun k n ic len => List.replicate len (k.headD 0 + n.foldl (· + ·) 0 + UInt8.ofNat ic),
+    mac := fun k d => List.replicate 16 (k.headD 0 + UInt8.ofNat d.length + d.foldl (· ^^^ ·) 0),
+    hchacha := fun _ k => k }
+
+example : PrimsOk toyPrims := ⟨fun _ _ _ _ => by simp [toyPrims], fun _ _ => by simp [toyPrims]⟩
+
+/-- a state whose counter is about to wrap -/
+def toyState : State := ⟨List.replicate 32 7, [0xff, 0xff, 0xff, 0xff, 1, 2, 3, 4, 5, 6, 7, 8]⟩
+
+example : StateOk toyState := ⟨by decide, by decide⟩
+example : StateOk (SS.init toyPrims (List.replicate 24 9) (List.replicate 32 7)) := ⟨by decide, by decide⟩
+
+example : (push toyPrims toyState [1, 2, 3] [9] 0).2.length = 20 := by decide
+
+set_option maxRecDepth 20000 in
+example : pull toyPrims toyState (push toyPrims toyState [1, 2, 3] [9] 0).2 [9]
+    = .ok (push toyPrims toyState [1, 2, 3] [9] 0).1 [1, 2, 3] 0 := by decide
+
+set_option maxRecDepth 20000 in
+/-- changed associated data, and a flipped ciphertext bit, are rejected by the toy MAC -/
+example : pull toyPrims toyState (push toyPrims toyState [1, 2, 3] [9] 0).2 [8] = .fail ∧
+    pull toyPrims toyState ((push toyPrims toyState [1, 2, 3] [9] 0).2.set 2 0) [9] = .fail := by decide
+
+set_option maxRecDepth 20000 in
+/-- the wrapping counter triggered a rekey: the counter is reset and the key changed -/
+example : counter (push toyPrims toyState [1, 2, 3] [9] 0).1 = [1, 0, 0, 0] ∧
+    (push toyPrims toyState [1, 2, 3] [9] 0).1.k ≠ toyState.k := by decide
+
+set_option maxRecDepth 20000 in
+/-- a history with an explicit rekey, a REKEY-tagged chunk and a FINAL chunk -/
+example : receiver toyPrims toyState
+    (sender toyPrims toyState [.push [1, 2] [] 0, .rekey, .push [] [5] 2, .push [3] [] 3]).2
+    = some ((sender toyPrims toyState [.push [1, 2] [] 0, .rekey, .push [] [5] 2, .push [3] [] 3]).1,
+        [([1, 2], 0), ([], 2), ([3], 3)]) := by decide
+
+set_option maxRecDepth 20000 in
+example : macInput [1] (zeros 64) [2, 3] ≠ macInput [1, 0] (zeros 64) [2, 3] := by decide
 
 end Sodium.C09
